@@ -80,7 +80,38 @@ def all_drivers(tier, scale=0.4):
     return out
 
 
+def c19(tier):
+    q = tier == "quick"
+    return [
+        hist("ringbuf-sweep", "ringbuf", mode="sweep", events=400_000_000, k=1, shards=16, extra=["--max-depth", "12" if q else "16"], timeout=1800),
+        hist("ringbuf-rand", "ringbuf", events=1_000_000 if q else 20_000_000, k=1, shards=8),
+        hist("ringbuf-dbg", "ringbuf", variant="dbg", events=500_000 if q else 5_000_000, k=1, shards=4, seed_offset=31),
+    ]
+
+
+def c20(tier):
+    q = tier == "quick"
+    return [
+        hist("list-sweep", "list", mode="sweep", events=2_000_000_000, k=4, shards=1, extra=["--max-depth", "6" if q else "7"], timeout=3000),
+        hist("list-bfs", "list", mode="bfs", events=50_000_000, k=5 if q else 6, shards=1),
+        hist("heap-sweep", "heap", mode="sweep", events=2_000_000_000, k=5, shards=1, extra=["--max-depth", "8" if q else "10"], timeout=3000),
+        hist("heap-bfs", "heap", mode="bfs", events=200_000_000, k=5 if q else 6, shards=1, extra=["--max-states", "2000000", "--max-depth", "40"], timeout=3000),
+        hist("list-rand", "list", events=1_000_000 if q else 20_000_000, k=5, shards=3),
+        hist("heap-rand", "heap", events=1_000_000 if q else 20_000_000, k=6, shards=3),
+        hist("list-dbg", "list", variant="dbg", events=500_000 if q else 10_000_000, k=5, shards=2, seed_offset=31),
+        hist("heap-dbg", "heap", variant="dbg", events=500_000 if q else 10_000_000, k=6, shards=2, seed_offset=31),
+        hist("list-dbg-sweep", "list", mode="sweep", variant="dbg", events=2_000_000_000, k=4, shards=1, extra=["--max-depth", "5" if q else "6"], timeout=3000),
+        hist("heap-dbg-sweep", "heap", mode="sweep", variant="dbg", events=2_000_000_000, k=5, shards=1, extra=["--max-depth", "7" if q else "9"], timeout=3000),
+        # structural riders on primitive histories
+        hist("timer-rand", "timer", events=300_000 if q else 5_000_000, k=5, shards=2),
+        hist("mutex-rand", "mutex", events=300_000 if q else 5_000_000, k=4, shards=1),
+        hist("mpmc-rand", "mpmc", events=300_000 if q else 5_000_000, k=3, shards=1),
+    ]
+
+
 PLAN = {
+    "C19": c19,
+    "C20": c20,
     "C01": lambda tier: all_drivers(tier),
     "C02": lambda tier: driver_legs("mutex", tier),
     "C03": lambda tier: driver_legs("mutex", tier),
@@ -120,6 +151,8 @@ FLOORS = {
     "C15": (100_000, 1_000_000),
     "C17": (500_000, 5_000_000),
     "C18": (500_000, 5_000_000),
+    "C19": (1_000_000, 10_000_000),
+    "C20": (1_000_000, 10_000_000),
 }
 
 
